@@ -184,13 +184,29 @@ fn case(t0: &mut Tape, w: &Worker) -> CaseResult {
     let stdin = ot.chance(1, 2);
     let ext = if toml_fmt { "toml" } else { "json" };
     let stats_file = w.path("written").with_extension(ext);
-    let mut base = mode.args();
+    // a fifth of the cases: the same round trip / drift in the modes that print no report (views, filtered data to stdout)
+    let rdhs = rdhs_of(&cs.stream, &lay);
+    let other: Option<(Vec<String>, &'static str)> = if ot.chance(1, 5) {
+        Some(match ot.below(4) {
+            0 => (vec!["view".into(), "rdh".into()], "view rdh"),
+            1 => (vec!["view".into(), "its-readout-frames".into()], "view its-readout-frames"),
+            2 => (vec!["view".into(), "its-readout-frames-data".into()], "view its-readout-frames-data"),
+            _ => {
+                let mut a = Filter::Link(rdhs[ot.below(rdhs.len())].link_id).args();
+                a.extend(["-o".to_string(), "stdout".to_string()]);
+                (a, "filter to stdout")
+            }
+        })
+    } else {
+        None
+    };
+    let mode_name: &'static str = other.as_ref().map(|o| o.1).unwrap_or(mode.name());
+    let mut base = other.as_ref().map(|o| o.0.clone()).unwrap_or_else(|| mode.args());
     if mute {
         base.push("-m".into());
     }
     // optional filter (same in both runs)
-    let rdhs = rdhs_of(&cs.stream, &lay);
-    if ot.chance(1, 4) {
+    if mode_name != "filter to stdout" && ot.chance(1, 4) {
         base.extend(Filter::Link(rdhs[ot.below(rdhs.len())].link_id).args());
         out.labels.push("with_filter".into());
     }
@@ -226,7 +242,7 @@ fn case(t0: &mut Tape, w: &Worker) -> CaseResult {
     // ---- round trip
     let (spec2, o2) = verify(&mut case, &stats_file, None);
     let mismatch_lines = |o: &cli::RunOut| -> Vec<String> { cli::parse_log(&o.stderr).into_iter().filter(|r| r.text.contains("mismatch!")).map(|r| r.text.lines().next().unwrap_or("").to_string()).collect() };
-    let detail_rt = json!({"mode": mode.name(), "format": ext, "mute": mute, "cmd_write": spec1.describe(), "cmd_verify": spec2.describe(), "verify_out": o2.brief(), "mismatches": mismatch_lines(&o2), "input": input_detail(&bytes)});
+    let detail_rt = json!({"mode": mode_name, "format": ext, "mute": mute, "cmd_write": spec1.describe(), "cmd_verify": spec2.describe(), "verify_out": o2.brief(), "mismatches": mismatch_lines(&o2), "input": input_detail(&bytes)});
     if o2.timed_out || o2.crash_signature().is_some() {
         return Err(Fail::new(format!("C15:verify-crash:{}", o2.crash_signature().unwrap_or_else(|| "hang".into())), "the verifying run crashed", detail_rt));
     }
@@ -243,7 +259,7 @@ fn case(t0: &mut Tape, w: &Worker) -> CaseResult {
     // ---- drift of the file: every collected leaf, one at a time
     let mut all = vec![];
     leaves(&tree, &mut vec![], &mut all);
-    let stave = mode.stave();
+    let stave = mode.stave() && other.is_none();
     let mut perturbed = 0;
     let mut names_done: Vec<String> = vec![];
     for (li, path) in all.iter().enumerate() {
@@ -268,7 +284,7 @@ fn case(t0: &mut Tape, w: &Worker) -> CaseResult {
         let name = stat_name(path);
         let lines = mismatch_lines(&o);
         let named = lines.iter().any(|l| l.starts_with(&format!("{name} mismatch!")));
-        let d = json!({"leaf": ps, "perturbation": desc, "mode": mode.name(), "format": ext, "mute": mute, "exit": o.code, "mismatch_lines": lines, "cmd": spec.describe(), "out": o.brief(), "input": input_detail(&bytes)});
+        let d = json!({"leaf": ps, "perturbation": desc, "mode": mode_name, "format": ext, "mute": mute, "exit": o.code, "mismatch_lines": lines, "cmd": spec.describe(), "out": o.brief(), "input": input_detail(&bytes)});
         if o.timed_out || o.crash_signature().is_some() {
             return Err(Fail::new(format!("C15:drift-crash:{name}"), "the verifying run crashed on a drifted statistics file", d));
         }
@@ -311,7 +327,7 @@ fn case(t0: &mut Tape, w: &Worker) -> CaseResult {
         let (b2, _) = s2.encode();
         // with a filter the changed packet may be outside the selection but rdhs_seen / links still change for the three edits
         let (spec, o) = verify(&mut case, &stats_file, Some(b2.clone()));
-        let d = json!({"input_change": what, "mode": mode.name(), "format": ext, "exit": o.code, "mismatch_lines": mismatch_lines(&o), "cmd": spec.describe(), "out": o.brief(), "original_input": input_detail(&bytes)});
+        let d = json!({"input_change": what, "mode": mode_name, "format": ext, "exit": o.code, "mismatch_lines": mismatch_lines(&o), "cmd": spec.describe(), "out": o.brief(), "original_input": input_detail(&bytes)});
         if !(o.timed_out || o.crash_signature().is_some() || cli::has_fatal(&o.stderr)) {
             let trigger_only = what == "one trigger bit of one packet";
             let filtered = base.iter().any(|a| a == "-f");
@@ -322,7 +338,7 @@ fn case(t0: &mut Tape, w: &Worker) -> CaseResult {
         }
         out.labels.push(format!("input_drift:{what}"));
     }
-    out.labels.push(format!("mode:{}", mode.name()));
+    out.labels.push(format!("mode:{}", mode_name));
     out.labels.push(format!("format:{ext}"));
     out.labels.push(if mute { "muted".into() } else { "unmuted".into() });
     for nme in &names_done {
@@ -333,10 +349,10 @@ fn case(t0: &mut Tape, w: &Worker) -> CaseResult {
         out.labels.push("multi_line_error_message_in_file".into());
     }
     out.nontrivial = has_errors && perturbed > 20;
-    out.fingerprint = fnv64(&bytes) ^ fnv64(format!("{}{ext}{mute}", mode.name()).as_bytes());
+    out.fingerprint = fnv64(&bytes) ^ fnv64(format!("{}{ext}{mute}", mode_name).as_bytes());
     out.execs = case.execs;
     if w.take_sample() {
-        out.sample = Some(json!({"mode": mode.name(), "format": ext, "mute": mute, "leaves_perturbed": perturbed, "statistics_named": names_done, "errors_in_file": tree["error_stats"]["total_errors"]}));
+        out.sample = Some(json!({"mode": mode_name, "format": ext, "mute": mute, "leaves_perturbed": perturbed, "statistics_named": names_done, "errors_in_file": tree["error_stats"]["total_errors"]}));
     }
     let _ = Mode::All;
     Ok(out)
